@@ -1114,7 +1114,11 @@ pub mod newline {
     }
 
     /// `apply_newline_style(style, &mut formatted, raw_input_text)`: the text afterwards.
-    pub fn apply_newline_style(style: NewlineStyle, formatted: &str, raw_input_text: &str) -> String {
+    pub fn apply_newline_style(
+        style: NewlineStyle,
+        formatted: &str,
+        raw_input_text: &str,
+    ) -> String {
         let mut t = formatted.to_owned();
         ns::apply(style, &mut t, raw_input_text);
         t
@@ -1134,12 +1138,17 @@ pub mod newline {
 
     /// `FmtVisitor::push_vertical_spaces(newline_count)` on a fresh visitor whose buffer holds
     /// `buffer`: (buffer, line_number) afterwards.
-    pub fn push_vertical_spaces(buffer: &str, newline_count: usize, config: &Config) -> (String, usize) {
+    pub fn push_vertical_spaces(
+        buffer: &str,
+        newline_count: usize,
+        config: &Config,
+    ) -> (String, usize) {
         crate::missed_spans::verif_local::push_vertical_spaces(buffer, newline_count, config)
     }
 
-    /// `FmtVisitor::process_missing_code(status, snippet, &snippet[offset..offset+len], offset, stdin)`
-    /// on a fresh visitor with `block_indent = Indent::new(block_indent, 0)`; `status` is
+    /// `FmtVisitor::process_missing_code(status, snippet, subslice, offset, stdin)` with
+    /// `subslice = &snippet[offset..offset + len]`, on a fresh visitor with
+    /// `block_indent = Indent::new(block_indent, 0)`; `status` is
     /// `(line_start, last_wspace, cur_line)`. Returns the pushed text and the status afterwards.
     pub fn process_missing_code(
         snippet: &str,
